@@ -351,6 +351,9 @@ func (f *Frame) instrWrites(in ssa.Instruction, w *WriteSet) {
 	case *ssa.Select, *ssa.Send:
 		// blocking: other goroutines may run; lock-protected state is
 		// re-havocked at Lock, unprotected shared state is outside the model.
+		if _, ok := ghostHeaps["chanSent"]; ok {
+			w.Heaps["G_chanSent"] = true
+		}
 	}
 }
 
